@@ -84,6 +84,8 @@ class Cluster:
         fault = entry["fault"]
         if fault in (404,):
             raise kr8s.NotFoundError(f"{name} not found (injected)")
+        if fault == "raise-after":      # the server answered, the client failed afterwards (C09)
+            raise InjectedFault("injected after GET")
         obj = self.objects.get(key)
         if obj is None:
             return
